@@ -25,7 +25,7 @@ META = {
     'assumptions': ['reference fixed point in mtv/agraph.py', 'own-status labelling of defense / exist / notExist as documented by the analyzer'],
     'shards': {'quick': 8, 'thorough': 16},
     'quotas': {
-        'quick': {'exhaustive-2-node-graph-orders': 10000, 'three-node-graph-orders': 3000, 'random-graph-orders': 1500,
+        'quick': {'exhaustive-2-node-graph-orders': 3000, 'three-node-graph-orders': 800, 'random-graph-orders': 1500,
                   'generated-graph-orders': 100, 'class:cycle': 200, 'class:self-loop': 200, 'class:gated-parent-of-and': 100,
                   'class:and-mixed-parents': 100, 'labels-compared': 50000, 'class:gated-own-status-parent': 50},
         'thorough': {'exhaustive-2-node-graph-orders': 14000, 'three-node-graph-orders': 270000, 'random-graph-orders': 200000,
